@@ -12,7 +12,7 @@ open Dia
 
 structure DState where
   ms : MState := {}
-  cfg : Cfg := ⟨fun _ _ => false, 32⟩
+  cfg : Cfg := ⟨fun _ _ => false, 32, {}⟩
   app : Option DocApp := none       -- application element being read
   doc : List DocApp := []           -- document being read (reversed)
   stash : List Doc := []            -- documents waiting for `dconstruct` (reversed)
@@ -303,7 +303,7 @@ def encStr (e : Enc) : String :=
 /-- `dec <hex>`: the code's decoder (probed configuration), the strict RFC reader, and why -/
 def decLine (cfg : Cfg) (D : Dict) (bs : Bytes) : String :=
   let impl := decMsg cfg D.lookup bs
-  let strict := decMsg (strictCfg bs.length) D.lookup bs   -- the reader of `Spec.read` (C03_read_correct)
+  let strict := decMsg (strictCfg bs.length cfg.tables) D.lookup bs   -- the reader of `Spec.read` (C03_read_correct)
   let implS := match impl with
     | .ok m => "ok " ++ m.dump ++ " " ++ (match m.enc.err with | none => hexOrDash m.enc.bytes | some _ => "encerr") ++
         " " ++ toString m.length
@@ -328,16 +328,24 @@ def step (s : DState) (line : String) : DState × String :=
   let toks := line.trimAscii.toString.splitOn " "
   let plain (st : DState) (a : String) : DState × String := (st, a ++ " | - | -")
   match toks with
-  | ["cfg", limit, sh, lo] =>
-    match limit.toNat? with
-    | some l =>
+  | "cfg" :: limit :: sh :: lo :: rest =>
+    -- the probed parameters of the code: nesting limit, leniency per fixed-size type, and (optionally) the command-code
+    -- and application-id tables `cmds=a,b,.. apps=x,y,..`; tables that do not fit the header fields (the hypothesis
+    -- `Tables.Fit` of the C02/C03 theorems) are refused
+    let listOf (k : String) (d : List Nat) : Option (List Nat) :=
+      match rest.findSome? fun t => if t.startsWith (k ++ "=") then some ((t.drop (k.length + 1)).toString) else none with
+      | none => some d
+      | some v => if v = "" then some [] else (v.splitOn ",").mapM String.toNat?
+    match limit.toNat?, listOf "cmds" ({} : Tables).cmds, listOf "apps" ({} : Tables).apps with
+    | some l, some cmds, some apps =>
       let shl := sh.toList; let lol := lo.toList
       let f : Ty → Dir → Bool := fun t d =>
         match d with
         | .shorter => shl.getD t.idx '0' == '1'
         | .longer => lol.getD t.idx '0' == '1'
-      plain { s with cfg := ⟨f, l⟩ } "ok"
-    | none => plain s "bad-op"
+      let T : Tables := ⟨cmds, apps⟩
+      if T.fitB then plain { s with cfg := ⟨f, l, T⟩ } "ok" else plain s "tables-do-not-fit"
+    | _, _, _ => plain s "bad-op"
   | ["dreset"] => plain { s with ms := { s.ms with dict := {} } } "ok"
   | ["dadd", c, v, n, t, m] =>
     match pU32 c, pVendor v, pStr n, tyOfApiName t with
@@ -369,7 +377,7 @@ def step (s : DState) (line : String) : DState × String :=
     | _, _, _, _, _, _ => plain s "bad-op"
   | "doc_end" :: mode :: _ =>
     let doc := (match s.app with | some a => a :: s.doc | none => s.doc).reverse
-    if !docOk doc then plain { s with app := none, doc := [] } "bad-op" else
+    if !docOk s.cfg.tables doc then plain { s with app := none, doc := [] } "bad-op" else
     if mode = "stash" then plain { s with app := none, doc := [], stash := doc :: s.stash } "ok"
     else plain { s with app := none, doc := [], ms := { s.ms with dict := s.ms.dict.loadDoc doc } } "ok"
   | ["dconstruct"] =>
@@ -397,11 +405,10 @@ def step (s : DState) (line : String) : DState × String :=
     | none => plain s "bad-op"
   | ["dsize"] => plain s (toString s.ms.dict.avps.length)
   | ["tables"] =>
-    let known (f : Nat → Bool) (cands : List Nat) : List Nat := (cands.filter f).mergeSort (· ≤ ·) |>.eraseDups
-    let cmdCands := [0, 257, 280, 282, 258, 275, 274, 272, 8388635, 8388636, 271, 265]
-    let appCands := [0, 3, 4, 16777238, 16777236, 16777302]
-    plain s ("cmds=" ++ String.intercalate "," ((known cmdKnown cmdCands).map toString) ++ " apps=" ++
-      String.intercalate "," ((known appKnown appCands).map toString))
+    -- the tables the model works with (probed by `hx probe`), against a second enumeration on the code by this op
+    let sorted (l : List Nat) : List Nat := (l.mergeSort (· ≤ ·)).eraseDups
+    plain s ("cmds=" ++ String.intercalate "," ((sorted s.cfg.tables.cmds).map toString) ++ " apps=" ++
+      String.intercalate "," ((sorted s.cfg.tables.apps).map toString))
   | ["clear"] => plain { s with ms := { s.ms with stack := [] } } "ok"
   | ["enc"] =>
     let m := s.ms.msg
